@@ -17,18 +17,44 @@ def libs():
     return H, D, PR, plt
 
 
+TRANSFORM_ROUTES = [("constructor",), ("set",), ("constructor", "add"), ("constructor", "precompose"),
+                    ("add",), ("precompose",), ("set", "precompose", "add"), ("constructor", "add", "precompose")]
+
+
 def make_drawing(rng, model, transform_kind, plt, D, H, own_axes=False):
     """HyperbolicDrawing with identity or a random certified isometry; returns
     (drawing, A) with A the column-convention matrix (reference side)."""
     A = np.eye(3)
     kwargs = {}
+    later = []
     if transform_kind == "isometry":
-        A = rh.rand_isometry(rng, 2, tmax=1.0)
-        kwargs["transform"] = H.Isometry(A, column_vectors=True)
+        # the drawing's transform is reached through one of its histories:
+        # constructor argument, set_transform, add_transform (applied after what
+        # is there), precompose_transform (applied before it).  Seeded change
+        # C19-r3-3: precompose_transform composing in the reverse order.
+        route = TRANSFORM_ROUTES[int(rng.integers(len(TRANSFORM_ROUTES)))]
+        for step in route:
+            B = rh.rand_isometry(rng, 2, tmax=0.7)
+            if step == "constructor":
+                kwargs["transform"] = H.Isometry(B, column_vectors=True)
+                A = B
+            else:
+                later.append((step, B))
     if own_axes:
         fig, axs = plt.subplots(1, 2)
         kwargs.update(ax=axs[0], fig=fig)
     d = D.HyperbolicDrawing(model=model, **kwargs)
+    for step, B in later:
+        T = H.Isometry(B, column_vectors=True)
+        if step == "set":
+            d.set_transform(T)
+            A = B
+        elif step == "add":
+            d.add_transform(T)
+            A = B @ A
+        else:
+            d.precompose_transform(T)
+            A = A @ B
     d._gtmon_matrix = A
     return d, A
 
@@ -363,18 +389,38 @@ def wl_projective(run, rng, idx):
     setting = "own-axes" if idx % 5 == 4 else "current"
     A = np.eye(3)
     kwargs = {}
+    later = []
     if tk == "map":
-        while True:
-            A = rng.normal(size=(3, 3)) + np.eye(3)
-            if np.linalg.cond(A) < 30:
-                break
-        kwargs["transform"] = PR.Transformation(A, column_vectors=True)
+        def rand_map():
+            while True:
+                B = rng.normal(size=(3, 3)) + np.eye(3)
+                if np.linalg.cond(B) < 12:
+                    return B
+        route = TRANSFORM_ROUTES[int(rng.integers(len(TRANSFORM_ROUTES)))]
+        for step in route:
+            B = rand_map()
+            if step == "constructor":
+                kwargs["transform"] = PR.Transformation(B, column_vectors=True)
+                A = B
+            else:
+                later.append((step, B))
     if setting == "own-axes":
         fig, axs = plt.subplots(1, 2)
         kwargs.update(ax=axs[0], fig=fig)
     if what == "polygon-nonaffine-option":
         ci = 0
     d = D.ProjectiveDrawing(chart_index=ci, **kwargs)
+    for step, B in later:
+        T = PR.Transformation(B, column_vectors=True)
+        if step == "set":
+            d.set_transform(T)
+            A = B
+        elif step == "add":
+            d.add_transform(T)
+            A = B @ A
+        else:
+            d.precompose_transform(T)
+            A = A @ B
     d._gtmon_matrix = A
     try:
         def chart_points(shp):
